@@ -144,3 +144,85 @@ c.assumptions.append('augment_exception_message_and_reraise always raises an ins
                      '[assumed: run-time class creation; bounded: bC17 over all builtin '
                      'exception classes]')
 register(c)
+
+
+# ---- _might_have_parameter against the signature (C11) ---------------------------------------------
+# A second view (callers keep using the abstract predicate of c_binding_api.py): what "the
+# configurable's signature can accept" means, in terms of the inspected signature of the
+# unwrapped construction function.
+world.EXTERNALS['inspect.isclass'] = 'ext::inspect.isclass'
+c = Contract('ext::inspect.isclass', ['C11'], kind='assumed')
+c.param('obj', KVal)
+c.result = KBool
+c.ensure('functional', lambda x: x.result.e == sym.ufun('is_class', sym.Val, sym.BoolS)(x.a.obj.e))
+c.raises_only_listed = True
+register(c)
+
+c = Contract('config.py::_find_class_construction_fn', ['C11'], kind='assumed')
+c.param('cls', KVal)
+c.result = KVal
+c.ensure('functional', lambda x: x.result.e == sym.ufun('construction_fn', sym.Val, sym.Val)(
+    x.a.cls.e))
+c.raises_only_listed = True
+c.assumptions.append('_find_class_construction_fn(cls) is the first __init__/__new__ in the MRO '
+                     '(inspect.getmro; deterministic per class)')
+register(c)
+
+OBJECT_INIT = z3.Const('val!object.__init__', sym.Val)
+world.MODULE_ATTRS[('object', '__init__')] = lambda ex: VObj(OBJECT_INIT)
+
+
+def has_wrapped(f):
+  return sym.ufun('hasattr___wrapped__', sym.Val, sym.BoolS)(f)
+
+
+def wrapped_of(f):
+  return sym.ufun('attr___wrapped__', sym.Val, sym.Val)(f)
+
+
+def unwrapped(f):
+  """End of the __wrapped__ chain of f (spec function, defined recursively)."""
+  return sym.ufun('fully_unwrapped', sym.Val, sym.Val)(f)
+
+
+_f = z3.Const('f!uw', sym.Val)
+c = Contract('config.py::_might_have_parameter#signature', ['C11'])
+c.target = 'config.py::_might_have_parameter'
+c.param('fn_or_cls', KVal)
+c.param('arg_name', KStr)
+c.result = KBool
+c.local_kinds = {'fn': KVal}
+c.assume_entry('definition_of_fully_unwrapped', lambda x: sym.forall(
+    [_f], unwrapped(_f) == z3.If(has_wrapped(_f), unwrapped(wrapped_of(_f)), _f),
+    patterns=[unwrapped(_f)]), 'definition of the spec function fully_unwrapped (recursive)')
+c.notes.append('termination of the __wrapped__ walk is not proved')
+
+
+def _start_fn(x):
+  f0 = x.a.fn_or_cls.e
+  return z3.If(sym.ufun('is_class', sym.Val, sym.BoolS)(f0),
+               sym.ufun('construction_fn', sym.Val, sym.Val)(f0), f0)
+
+
+def _accepts(x):
+  sp = argspec(unwrapped(_start_fn(x)))
+  name = x.a.arg_name.e
+  in_list = lambda l: z3.Exists([i_], z3.And(0 <= i_, i_ < l.len, l.arr[i_] == name))
+  varkw = sp.fields['varkw']
+  return z3.Or(z3.And(z3.Not(varkw.is_none), varkw.inner.truthy()),
+               in_list(sp.fields['args']), in_list(sp.fields['kwonlyargs']))
+
+
+c.ensure('a_class_without_its_own_constructor_has_no_parameters', lambda x: z3.Implies(
+    z3.And(sym.ufun('is_class', sym.Val, sym.BoolS)(x.a.fn_or_cls.e),
+           sym.ufun('construction_fn', sym.Val, sym.Val)(x.a.fn_or_cls.e) == OBJECT_INIT),
+    z3.Not(x.result.e)))
+c.ensure('otherwise_true_iff_the_unwrapped_signature_names_it_or_takes_kwargs', lambda x: z3.Implies(
+    z3.Not(z3.And(sym.ufun('is_class', sym.Val, sym.BoolS)(x.a.fn_or_cls.e),
+                  sym.ufun('construction_fn', sym.Val, sym.Val)(x.a.fn_or_cls.e) == OBJECT_INIT)),
+    x.result.e == _accepts(x)))
+c.raises_only_listed = True
+c.loop(("hasattr(fn, '__wrapped__')", None), [Clause(
+    'still_on_the_wrapped_chain_of_the_start', lambda x, k:
+    unwrapped(sym.to_val(x.env.fn)) == unwrapped(_start_fn(x)))])
+register(c)
